@@ -1,5 +1,5 @@
 import CacheVerif.Deep.Step
-import CacheVerif.Generated.DeepSimp
+import CacheVerif.Proofs.DeepSimpSet
 import CacheVerif.Model.Cache
 /-!
 # The hand-written model M2 (`Model.Cache`) is the meaning of the current text of `xsync_map.go`
@@ -13,19 +13,7 @@ namespace DeepCache
 open Deep Model Spec
 variable {K V : Type} [DecidableEq K] [Inhabited V]
 
-attribute [deep_simp] deepStep encode decode runMethod FUEL ofSt stOf callDecl callVal callUser execL execS
-  execInit evalE evalArgs evalFields itemsOp FuncDecl.params FuncDecl.results FuncDecl.body bindAll alloc
-  popTo zeroOf readVar lookup readCell writeCell binop assignVar assignField assignIndex defineAll
-  assertTy readAll selField mkItem mkItem.go toV isNil ofItem asItem emit enter leave emitVisit
-
 set_option maxRecDepth 8192
-
-/-- definitions of the hand-written model unfolded on the right-hand sides -/
-macro "m2" : tactic => `(tactic| skip)
-
-attribute [deep_simp] Model.Cache.step Model.Cache.set Model.Cache.get Model.Cache.expiration Model.Cache.expired Gen.expiration
-  AMap.store AMap.load AMap.compute Model.Cache.getOrSetFn Model.Cache.refreshFn Model.Cache.liveOld Model.Cache.computeFn
-  Model.Cache.getAndDelete AMap.size
 
 theorem deep_set (s : CSt K V) (k : K) (v : V) (d : Int) :
     deepStep twinMap s (.set k v d) = some (Model.Cache.step s (.set k v d)) := by
